@@ -46,6 +46,11 @@ def slot_guard(B, bb):
                     it = B.blocks[o[2]]['t']
                     if 'fragments' in root_fields(B, it['args'][0]):
                         out.append(canon(B, it['args'][1]))
+                # `match self.fragments.get_mut(idx) { Some(Some(_)) => dup, Some(slot) => store }`: the slot behind the Some of get / get_mut
+                if o is not None and o[0] == 'call' and o[1] and (o[1].endswith('::get_mut') or o[1].endswith('::get')) and 'as:Some' in [str(x) for x in unwrap(B.origin_place(sd[0]))[1]]:
+                    it = B.blocks[o[2]]['t']
+                    if len(it['args']) > 1 and 'fragments' in root_fields(B, it['args'][0]):
+                        out.append(canon(B, it['args'][1]))
             continue
         sb = B.switch_bool_edges(src)
         if not sb or sb[0][0] != 'call':
@@ -82,6 +87,16 @@ def slot_writes(B):
                 a = rv if rv['k'] == 'agg' else (B.origin(rv['op'])[1] if rv['k'] == 'use' and B.origin(rv['op'])[0] == 'agg' else None)
                 if a is not None and a.get('var') == 'Some':
                     out.append((bb, canon(B, it['args'][1])))
+        elif st['pl'].get('p') == ['*']:
+            # `*slot = Some(data)` with slot the &mut handed out by fragments.get_mut(idx)
+            ob, op_ = unwrap(B.origin({'k': 'cp', 'pl': {'l': st['pl']['l']}}))
+            if ob is not None and ob[0] == 'call' and str(ob[1]).endswith('::get_mut') and 'as:Some' in [str(x) for x in op_]:
+                it = B.blocks[ob[2]]['t']
+                if len(it['args']) > 1 and 'fragments' in root_fields(B, it['args'][0]):
+                    rv = st['rv']
+                    a = rv if rv['k'] == 'agg' else (B.origin(rv['op'])[1] if rv['k'] == 'use' and B.origin(rv['op'])[0] == 'agg' else None)
+                    if a is not None and a.get('var') == 'Some':
+                        out.append((bb, canon(B, it['args'][1])))
     return out
 
 
